@@ -423,6 +423,44 @@ func TestBlockExecutionIsDeterministic(t *testing.T) {
 					t.Fatalf("repetition %d (mode %d) of the same block disagrees with the first run: %s\nblock: %s", rep, mode, d, descs(meta))
 				}
 			}
+			// proposer and verifiers: the proposer executes the offered list until its time budget is spent (the
+			// clock is steered here so that the budget runs out at a generated transaction), and puts what it reports
+			// as executed into the block. A verifier executing exactly that list on the same parent with the same header
+			// must arrive at the proposer's root and receipts, wherever the budget happened to end.
+			{
+				offered := append([]*types.Transaction{}, txs...)
+				txgen.SortForBlock(offered)
+				cutAt := rapid.IntRange(0, len(offered)+1).Draw(t, "castBudgetEndsAtClockRead")
+				reads := 0
+				t0 := time.Date(2024, 5, 1, 8, 0, 0, 0, time.UTC)
+				utility.VerifSetClock(func() time.Time {
+					reads++
+					if reads > cutAt+1 { // the first read is the start of the budget
+						return t0.Add(10 * time.Second)
+					}
+					return t0
+				})
+				cast := boot.ExecWith(w.root, w.height, h, offered, "casting", nil)
+				utility.VerifSetClock(nil)
+				if cast.Panic != nil {
+					t.Fatalf("block executor panicked while casting: %v\nblock: %s", cast.Panic, descs(meta))
+				}
+				ver := boot.ExecWith(w.root, w.height, h, cast.Executed, "fullverify", nil)
+				if ver.Panic != nil {
+					t.Fatalf("block executor panicked while verifying the cast block: %v\nblock: %s", ver.Panic, descs(meta))
+				}
+				pc, pv := render(cast), render(ver)
+				pc.Evicted, pv.Evicted = nil, nil // the proposer's evictions are not part of what verifiers recompute
+				if d := pc.diff(pv); d != "" {
+					t.Fatalf("a verifier executing the %d transactions the proposer packed (of %d offered; time budget spent at clock read %d) disagrees with the proposer: %s\nblock: %s",
+						len(cast.Executed), len(offered), cutAt, d, descs(meta))
+				}
+				if len(cast.Executed) < len(offered)-len(cast.Evicted) {
+					stats.Class("cast:time_budget_cut_the_list")
+				} else {
+					stats.Class("cast:whole_list_packed")
+				}
+			}
 			stats.Count("executions", int64(reps))
 			kinds := map[string]bool{}
 			multi := false
